@@ -859,6 +859,13 @@ func (pr *Program) localInits(v *types.Var, info *types.Info) []ast.Expr {
 							}
 						}
 					}
+				case *ast.RangeStmt:
+					// a range variable carries the ranged expression
+					for _, kv := range []ast.Expr{n.Key, n.Value} {
+						if id, ok := kv.(*ast.Ident); ok && (info.Defs[id] == v || info.Uses[id] == v) {
+							out = append(out, n.X)
+						}
+					}
 				}
 				return true
 			})
@@ -1047,6 +1054,79 @@ func (pr *Program) genesisFieldRoundTrip(m, modPath string, export, initg *FuncI
 				}
 			}
 		}
+	}
+	// single source: a local of InitGenesis that carries a genesis field must not also be assigned from a different
+	// genesis field (e.g. an imported id counter overwritten by the id of the last imported record)
+	if stateObj != nil {
+		fieldsOf := func(e ast.Node) map[string]bool {
+			fs := map[string]bool{}
+			ast.Inspect(e, func(n ast.Node) bool {
+				switch n := n.(type) {
+				case *ast.SelectorExpr:
+					if id, ok := n.X.(*ast.Ident); ok && iinfo.Uses[id] == stateObj {
+						fs[n.Sel.Name] = true
+					}
+				case *ast.Ident:
+					if v, ok := iinfo.Uses[n].(*types.Var); ok && v != stateObj && v.Pkg() != nil && v.Parent() != v.Pkg().Scope() {
+						// range variable over a genesis field, or a local initialised from one (one level)
+						for _, init := range pr.localInits(v, iinfo) {
+							ast.Inspect(init, func(m ast.Node) bool {
+								if se, ok := m.(*ast.SelectorExpr); ok {
+									if id, ok := se.X.(*ast.Ident); ok && iinfo.Uses[id] == stateObj {
+										fs[se.Sel.Name] = true
+									}
+								}
+								return true
+							})
+						}
+					}
+				}
+				return true
+			})
+			return fs
+		}
+		seenVar := map[*types.Var]bool{}
+		var bad []string
+		ast.Inspect(initg.Decl.Body, func(n ast.Node) bool {
+			id, ok := n.(*ast.Ident)
+			if !ok {
+				return true
+			}
+			v, ok := iinfo.Defs[id].(*types.Var)
+			if !ok || v == stateObj || seenVar[v] {
+				return true
+			}
+			seenVar[v] = true
+			var sets []string
+			distinct := map[string]bool{}
+			for _, init := range pr.localInits(v, iinfo) {
+				fs := fieldsOf(init)
+				if len(fs) == 0 {
+					continue
+				}
+				var ks []string
+				for k := range fs {
+					ks = append(ks, k)
+				}
+				sort.Strings(ks)
+				key := strings.Join(ks, "+")
+				if !distinct[key] {
+					distinct[key] = true
+					sets = append(sets, key)
+				}
+			}
+			if len(sets) > 1 {
+				sort.Strings(sets)
+				bad = append(bad, v.Name()+" <- "+strings.Join(sets, " | "))
+			}
+			return true
+		})
+		sort.Strings(bad)
+		src := "every local of InitGenesis that carries a genesis field is assigned from that one field only"
+		if len(bad) > 0 {
+			src = "a local of InitGenesis is assigned from different genesis fields (an imported value can be overwritten by another): " + strings.Join(bad, "; ")
+		}
+		out = append(out, staticObl(fmt.Sprintf("x/%s/roundtrip-single-source", m), "C20", "frame", len(bad) == 0, "x/"+m, src))
 	}
 	for _, f := range order {
 		r := readsOfExpr(fieldExpr[f], export)
